@@ -204,14 +204,13 @@ func readConfigFile(filename string) (map[int]string, error) {
 		if len(parts) > 1 {
 			val = strings.TrimSpace(parts[1])
 		}
-		if len(val) < 1 {
-			continue
-		}
 		uckey := strings.ToUpper(strings.TrimSpace(parts[0]))
 		found := false
 		for _, item := range settingSetup {
 			if uckey == item.configKey {
-				cfg[item.key] = val
+				if len(val) > 0 {
+					cfg[item.key] = val
+				}
 				found = true
 				break
 			}
